@@ -138,6 +138,50 @@ def build_accumulate(fns):
     return [sc]
 
 
+def build_salted(fns):
+    """merkledb::aggregate_hashes::file_node_hash: the hash of a non-empty chunk list always goes through with_salt with the caller's salt"""
+    f = mir.find_fn(fns, r"^(aggregate_hashes::)?file_node_hash$")
+    g = modeb.CFG(f)
+    ws = g.blocks_calling(r"aggregate_hashes::with_salt$|^with_salt$")
+    mg = g.blocks_calling(r"merge_to_file$")
+    empty = modeb.bool_branch_edges(g, r"::is_empty$", True)
+    if not ws or not mg or not empty:
+        raise LookupError("file_node_hash shape not recognised (with_salt=%s merge_to_file=%s empty-guard=%s)" % (ws, mg, empty))
+    sc = smt.Script("c03_file_hash_salted")
+    rets = sorted(g.real_returns)
+    modeb.no_path_query(g, sc, "the file hash of a non-empty chunk list is produced by with_salt", [g.entry], rets, ws, avoid_edges=empty)
+    modeb.no_path_query(g, sc, "the salted value is the merkle root of the chunk list (merge_to_file precedes with_salt)", [g.entry], ws, mg)
+    modeb.no_path_query(g, sc, "witness: return reachable for a non-empty list", [g.entry], rets, [], expect="sat", kind="witness", avoid_edges=empty)
+    # argument provenance on the straight-line code: with_salt receives the function's own salt parameter
+    s = symex.Sym(f, prefix="fh.", models=_models(), max_visits=1)
+    n = 0
+    for i, p in enumerate(s.run("bb0", max_paths=200)):
+        ev = [e for e in p.events if re.search(r"with_salt$", e[0])]
+        if not ev:
+            continue
+        n += 1
+        a = ev[0][4][1]
+        _structural(sc, "with_salt is handed file_node_hash's salt parameter [path %d]" % i, a.kind == "opaque" and re.search(r"\b_2$", a.t) is not None)
+    if not n:
+        raise LookupError("no straight-line path reaches with_salt")
+    # with_salt = blake3 keyed hash of the value under the salt
+    w = mir.find_fn(fns, r"^(aggregate_hashes::)?with_salt$")
+    gw = modeb.CFG(w)
+    kh = gw.blocks_calling(r"blake3::keyed_hash$|keyed_hash$")
+    resid = gw.blocks_calling(r"FromResidual<.*>>::from_residual$")
+    if not kh:
+        raise LookupError("with_salt no longer calls blake3::keyed_hash")
+    modeb.no_path_query(gw, sc, "every Ok result of with_salt is a keyed hash", [gw.entry], sorted(gw.real_returns), kh + resid)
+    s2 = symex.Sym(w, prefix="ws.", models=_models(), max_visits=1)
+    for i, p in enumerate(s2.run("bb0", max_paths=50)):
+        ev = [e for e in p.events if re.search(r"keyed_hash$", e[0])]
+        if ev:
+            a = ev[0][4][0]
+            _structural(sc, "the key of the keyed hash is with_salt's salt parameter [path %d]" % i, a.kind == "opaque" and re.search(r"\b_2$", a.t) is not None)
+            break
+    return [sc]
+
+
 SMT = [
     Q("c03_finalize_provenance", "file hash = file_node_hash(accumulated chunk list, given salt)", "deduplication", build_finalize,
       functions=["deduplication::file_deduplication::FileDeduper::finalize"], bounds="all paths", solvers=("z3",)),
@@ -145,4 +189,12 @@ SMT = [
       functions=["data::file_cleaner::SingleFileCleaner::finish"], bounds="all paths from finalize to the pointer", solvers=("z3",)),
     Q("c03_chunk_list_accumulates", "process_chunks appends (hash, len) of every chunk on success", "deduplication", build_accumulate,
       functions=["deduplication::file_deduplication::FileDeduper::process_chunks"], bounds="all CFG paths", solvers=("z3", "cvc5-bv")),
+    Q("c03_file_hash_salted", "file hash of a non-empty chunk list = keyed hash (salt) of the merkle root", "merkledb", build_salted,
+      functions=["merkledb::aggregate_hashes::file_node_hash", "merkledb::aggregate_hashes::with_salt"], bounds="all CFG paths", solvers=("z3", "cvc5-bv"),
+      replay=native_test("c03_salt_native", "C03 violated", "native replay passes: file hashes differ between salts for every chunk count")),
 ]
+# The partition independence of the chunk list and the size half of the property rest on C04 (one call of the chunker resumes exactly where
+# the previous call stopped) and C14 (bytes counted == bytes fed, in-xorb runs included, add_data tiles its input): the same solver
+# obligations are part of this check.
+from props import c04 as _c04, c14 as _c14
+SMT += list(_c04.SMT) + [q for q in _c14.SMT if q.name in ("c14_loop_step", "c14_local_run_bytes", "c14_add_data_tiling")]
